@@ -979,6 +979,60 @@ impl<'p> VisitMut for GhostInit<'p> {
     }
 }
 
+struct AliasElim<'x> {
+    name: &'x str,
+    place: &'x Expr,
+}
+impl<'x> AliasElim<'x> {
+    fn is_alias(&self, e: &Expr) -> bool {
+        matches!(e, Expr::Path(p) if p.qself.is_none() && p.path.is_ident(self.name))
+    }
+}
+impl<'x> VisitMut for AliasElim<'x> {
+    fn visit_expr_mut(&mut self, e: &mut Expr) {
+        // as the base of a field access or the receiver of a method call: the place itself
+        match e {
+            Expr::Field(f) if self.is_alias(&f.base) => {
+                f.base = Box::new(self.place.clone());
+                return;
+            }
+            Expr::MethodCall(m) if self.is_alias(&m.receiver) => {
+                m.receiver = Box::new(self.place.clone());
+                for a in m.args.iter_mut() {
+                    self.visit_expr_mut(a);
+                }
+                return;
+            }
+            _ => {}
+        }
+        if self.is_alias(e) {
+            let p = self.place;
+            *e = syn::parse_quote!(&mut #p);
+            return;
+        }
+        visit_mut::visit_expr_mut(self, e);
+    }
+}
+
+struct BreakToReturn {
+    n: usize,
+}
+impl VisitMut for BreakToReturn {
+    fn visit_expr_mut(&mut self, e: &mut Expr) {
+        match e {
+            Expr::Loop(_) | Expr::While(_) | Expr::ForLoop(_) | Expr::Closure(_) => return, // breaks inside belong to the inner loop
+            Expr::Break(b) if b.label.is_none() && b.expr.is_some() => {
+                let v = b.expr.take().unwrap();
+                *e = syn::parse_quote!(return #v);
+                self.n += 1;
+                return;
+            }
+            _ => {}
+        }
+        visit_mut::visit_expr_mut(self, e);
+    }
+}
+
 struct Renamer<'m> {
     map: &'m [(String, String)],
 }
@@ -1191,6 +1245,46 @@ pub fn extract_fn(file: &syn::File, name: &str, opts: &Value, rules: &[Rule], pl
                 }
             }
         }
+        // R30: elimination of a local alias `let x = &mut self.f;` (declared per function): uses of `x` become the place itself
+        if let Some(al) = opts["aliases"].as_array() {
+            for a in al {
+                let name = a.as_str().unwrap_or("");
+                let mut place: Option<Expr> = None;
+                let mut idx = None;
+                for (i, st) in block.stmts.iter().enumerate() {
+                    if let Stmt::Local(l) = st {
+                        if let (syn::Pat::Ident(pi), Some(init)) = (&l.pat, &l.init) {
+                            if pi.ident == name {
+                                if let Expr::Reference(r) = &*init.expr {
+                                    if r.mutability.is_some() {
+                                        place = Some((*r.expr).clone());
+                                        idx = Some(i);
+                                    }
+                                }
+                            }
+                        }
+                    }
+                }
+                match (place, idx) {
+                    (Some(pl), Some(i)) => {
+                        block.stmts.remove(i);
+                        AliasElim { name, place: &pl }.visit_block_mut(&mut block);
+                        cx.log.push(json!({"rule": "R30", "line": src_line, "what": format!("local alias `{}` = &mut {} eliminated", name, one_line(pl.to_token_stream()))}));
+                    }
+                    _ => cx.errors.push(format!("lost anchor: alias `let {} = &mut ..;` not found", name)),
+                }
+            }
+        }
+        // R14: a `loop` that is the tail expression of the function: `break V` -> `return V`
+        if let Some(Stmt::Expr(Expr::Loop(l), None)) = block.stmts.last_mut() {
+            if l.label.is_none() {
+                let mut bv = BreakToReturn { n: 0 };
+                bv.visit_block_mut(&mut l.body);
+                if bv.n > 0 {
+                    cx.log.push(json!({"rule": "R14", "line": src_line, "what": format!("{} `break V` of the tail loop -> `return V`", bv.n)}));
+                }
+            }
+        }
         // structural
         Structural { cx: &mut cx }.visit_block_mut(&mut block);
         crate::closures::rewrite_closures(&mut block, &mut cx);
@@ -1229,6 +1323,24 @@ pub fn extract_fn(file: &syn::File, name: &str, opts: &Value, rules: &[Rule], pl
         "loops": cx.loops, "closures": cx.closures, "dasserts": cx.dasserts,
         "rewrites": log, "errors": cx.errors, "src_line": src_line,
     }))
+}
+
+/// Copy / Clone derives are kept (they change what compiles); all other derives are dropped (R1).
+fn derives_of(attrs: &[syn::Attribute]) -> Vec<String> {
+    let mut out = vec![];
+    for a in attrs {
+        if a.path().is_ident("derive") {
+            if let syn::Meta::List(l) = &a.meta {
+                for t in split_commas(l.tokens.clone()) {
+                    let n = norm(t);
+                    if n == "Copy" || n == "Clone" {
+                        out.push(n);
+                    }
+                }
+            }
+        }
+    }
+    out
 }
 
 // ------------------------------------------------------------------------------------------ other items
@@ -1340,6 +1452,7 @@ pub fn extract_other(file: &syn::File, kind: &str, name: &str, _opts: &Value, _r
                 let mut g2 = s2.generics.clone();
                 g2.where_clause = None;
                 return Ok(json!({"ident": name, "generics": one_line(g2.to_token_stream()), "fields": fields,
+                    "derives": derives_of(&s.attrs),
                     "tuple": matches!(s2.fields, syn::Fields::Unnamed(_)),
                     "src_line": s.ident.span().start().line, "rewrites": tm.log}));
             }
@@ -1350,7 +1463,7 @@ pub fn extract_other(file: &syn::File, kind: &str, name: &str, _opts: &Value, _r
                 tm.visit_item_enum_mut(&mut s2);
                 s2.vis = syn::parse_quote!(pub);
                 let ts = strip_attr_tokens(s2.to_token_stream());
-                return Ok(json!({"lines": lines_json(&print_lines(ts, 0, true)), "src_line": s.ident.span().start().line, "rewrites": tm.log}));
+                return Ok(json!({"lines": lines_json(&print_lines(ts, 0, true)), "derives": derives_of(&s.attrs), "src_line": s.ident.span().start().line, "rewrites": tm.log}));
             }
             ("const", syn::Item::Const(s)) if s.ident == name && cfg_true(&s.attrs) => {
                 let mut s2 = s.clone();
